@@ -155,6 +155,7 @@ class Interp(object):
         SeedDel = d.utility.error.SeedNodeDeletionException
         ran = True
         doc_error = False
+        unchanged_after_error = None
         taxa_leaves = [i for i in leaves if rt.taxon[i] is not None]
         leaf_labels = sorted(set(rt.taxon[i] for i in taxa_leaves), key=lambda s: int(s[1:]))
 
@@ -258,10 +259,20 @@ class Interp(object):
                     expect.subtract([rt.taxon[j]])
             expect = +expect
         elif op == "edge_collapse":
-            cand = [i for i in internals if i != rt.root]
+            # internal edges collapse; a terminal edge is refused with the documented ValueError and nothing changes
+            cand = [i for i in nonseed]
             if not cand:
                 return
-            ctx.call(key, rt.obj[cand[a["t"] % len(cand)]].edge.collapse, adjust_collapsed_head_children_edge_lengths=a["adj"])
+            i = cand[a["t"] % len(cand)]
+            if rt.children[i]:
+                ctx.call(key, rt.obj[i].edge.collapse, adjust_collapsed_head_children_edge_lengths=a["adj"])
+            else:
+                try:
+                    ctx.call(key, rt.obj[i].edge.collapse, adjust_collapsed_head_children_edge_lengths=a["adj"], _allowed=(ValueError,))
+                    ctx.check(False, "terminal_edge_collapse_is_refused", "C03.edge_collapse:terminal_accepted", lambda: "leaf %d of %s" % (i, rt.canon()))
+                except ValueError:
+                    doc_error = True
+                    unchanged_after_error = rt
         elif op == "collapse_clade":
             if not internals:
                 return
@@ -386,6 +397,13 @@ class Interp(object):
         if doc_error:
             ctx.cls("documented_error")
         self.observe(op, a, expect)
+        if unchanged_after_error is not None:
+            # a refused operation leaves the tree as it was: same nodes, same links, same taxa
+            now = self.rt
+            ctx.check(now.canon(ordered=True, lengths=True, labels=True) == unchanged_after_error.canon(ordered=True, lengths=True, labels=True)
+                      and [id(o) for o in now.obj] == [id(o) for o in unchanged_after_error.obj],
+                      "refused_operation_leaves_tree_unchanged", "C03.unchanged_after_error:" + op,
+                      lambda: "before %s after %s; history=%r" % (unchanged_after_error.canon(), now.canon(), self.sig))
         # encoding bookkeeping
         if op == "encode_bipartitions":
             self.enc_current = not a["mut"] or True
